@@ -53,6 +53,7 @@ type shadowVar struct {
 	reads     []accessRec // at most one per task
 	firstTask int
 	multi     bool
+	written   bool // some task has written it during this run
 }
 
 // Race is an unordered conflicting pair of accesses to one variable.
@@ -149,6 +150,7 @@ func (s *Sim) access(p unsafe.Pointer, write bool, site string) {
 		}
 		sh.write = me
 		sh.hasWrite = true
+		sh.written = true
 		sh.reads = sh.reads[:0]
 		s.stallAfterAccess(t, sh)
 		return
@@ -176,11 +178,22 @@ func (s *Sim) access(p unsafe.Pointer, write bool, site string) {
 // release later - which is what lets the vector clocks see a conflicting access
 // as unordered instead of incidentally ordered through a mutex.
 func (s *Sim) stallAfterAccess(t *task, sh *shadowVar) {
-	if s.cfg.AccessStall <= 0 || !sh.multi || len(s.tasks) < 2 {
+	// only variables that somebody writes can race; read-only shared data
+	// (class constants, tables) would just burn draws
+	if s.cfg.AccessStall <= 0 || !sh.multi || !sh.written || len(s.tasks) < 2 {
 		return
 	}
+	// every stall halves the probability of the next one: a run should make
+	// real progress between faults instead of living in permanent recovery
+	p := s.cfg.AccessStall
+	if n := s.probes["access_stalls"]; n > 0 {
+		if n > 12 {
+			n = 12
+		}
+		p /= float64(uint(1) << uint(n))
+	}
 	k := s.draw(8, func() int {
-		if s.rng.float() < s.cfg.AccessStall {
+		if s.rng.float() < p {
 			return 1 + int(s.rng.next()%7)
 		}
 		return 0
